@@ -142,7 +142,7 @@ func Sources(v ssa.Value, through func(ssa.Value) bool) []ssa.Value {
 // IsBuiltinCall reports whether v is a call of the named builtin.
 func IsBuiltinCall(v ssa.Value, name string) bool {
 	c, ok := v.(*ssa.Call)
-	if !ok {
+	if !ok || c == nil {
 		return false
 	}
 	b, ok := c.Call.Value.(*ssa.Builtin)
